@@ -1221,3 +1221,62 @@ def real_examine(req):
 
 
 OPS['examine'] = real_examine
+
+
+def rt_pok_remarks(req):
+    """C12 / C18 (remarks of round-9 sub-agents, D90–D92): an unknown start= / end= name is a ValueError also for callables without
+    `__name__`; explicit names given next to end= that binding consumes (`posoargs('self', end='a')` on a method) leave the bound
+    method advertising and enforcing the rest; a form whose whole selection binding consumed (`posoargs(end='self')`) does not
+    keep the instances it was retrieved through alive"""
+    import functools
+    import gc
+    import weakref
+    from sigtools import modifiers
+    which = req[1] if len(req) > 1 else 'all'
+    problems = []
+
+    def h(a, b): return a, b
+    with warnings.catch_warnings():
+        warnings.simplefilter('ignore')
+        if which in ('all', 'c12'):
+            for label, mk in (("kwoargs(start='zz') over functools.partial(h)", lambda: modifiers.kwoargs(start='zz')(functools.partial(h))),
+                              ("posoargs(end='zz') over functools.partial(h)", lambda: modifiers.posoargs(end='zz')(functools.partial(h))),
+                              ("kwoargs(start='zz') over h", lambda: modifiers.kwoargs(start='zz')(h)), ("posoargs(end='zz') over h", lambda: modifiers.posoargs(end='zz')(h))):
+                r = _try(mk)
+                if r != ('raised', 'ValueError'):
+                    problems.append('unknown-name-not-ValueError: %s -> %s' % (label, r))
+
+            class D:
+                @modifiers.posoargs('self', end='a')
+                def m(self, a, b): return (a, b)
+
+                @modifiers.posoargs('self', 'a', end='b')
+                def n(self, a, b, c=3): return (a, b, c)
+            for nm, want, call, res in (('m', '(a, /, b)', ((1,), {'b': 2}), (1, 2)), ('n', '(a, b, /, c=3)', ((1, 2), {'c': 5}), (1, 2, 5))):
+                s = _try(lambda: str(inspect.signature(getattr(D(), nm))))
+                if s != ('ok', want):
+                    problems.append("explicit-names-with-end: posoargs('self', …, end=…) on method %s: the bound signature is %s, expected %s" % (nm, s, want))
+                    continue
+                r = _try(lambda: getattr(D(), nm)(*call[0], **call[1]))
+                bad = _try(lambda: getattr(D(), nm)(a=1, b=2))
+                if r != ('ok', res) or bad != ('raised', 'TypeError'):
+                    problems.append("explicit-names-with-end: method %s: call -> %s, keyword call of a positional-only parameter -> %s" % (nm, r, bad))
+        if which in ('all', 'c18'):
+            for label, deco in (("posoargs(end='self')", lambda: modifiers.posoargs(end='self')), ("posoargs('self')", lambda: modifiers.posoargs('self')),
+                                ("kwoargs(start='a')", lambda: modifiers.kwoargs(start='a')), ("posoargs(end='a')", lambda: modifiers.posoargs(end='a'))):
+                def m(self, a, b=1): return a
+                K = type('K', (object,), {'m': deco()(m)})
+                c = K()
+                c.m
+                inspect.signature(c.m)
+                r = weakref.ref(c)
+                del c
+                gc.collect()
+                if r() is not None:
+                    problems.append('instance-retained: %s on a method: an instance whose method was looked up is still alive after its last reference went away' % label)
+    return ('ok', tuple(problems[:5]), 'pok_remarks')
+
+
+RT['pok_remarks'] = rt_pok_remarks
+RT['pok_remarks_c12'] = lambda req: rt_pok_remarks(('rt:pok_remarks', 'c12'))
+RT['pok_remarks_c18'] = lambda req: rt_pok_remarks(('rt:pok_remarks', 'c18'))
